@@ -51,6 +51,8 @@ def race_strategy():
     two = st.tuples(st.sampled_from(threadprog.PLAIN), st.sampled_from(threadprog.PLAIN)).map(
         lambda t: ['committer', [['write', t[0]], ['write', t[1]], ['commit']]])
     again = st.integers(3, 5).map(lambda k_: ['reader', [['begin'], ['readall']] * k_])
+    # (the held-up committer may be an undo transaction: its storage instance is the undo adapter)
+    und = st.integers(0, 1).map(lambda k_: ['undoer', [['undo', k_], ['read', 'x0']]])
 
     def mk(kind):
         first = st.tuples(st.sampled_from(['release', 'release', 'acquire']),
@@ -60,7 +62,7 @@ def race_strategy():
             lambda t: {'segments': [t[0], ['any', t[1], 0]]})
         return st.fixed_dictionaries({
             'mode': st.just('threads'), 'kind': st.just(kind),
-            'programs': st.tuples(st.one_of(one, two), st.one_of(one, again, again)).map(list),
+            'programs': st.tuples(st.one_of(one, two, und), st.one_of(one, again, again)).map(list),
             'schedule': sched_,
             'lines': st.just(False), 'warm': st.booleans(), 'packer': st.just(None)})
     return st.sampled_from(['fs', 'mapping', 'mapping', 'demo']).flatmap(mk)
